@@ -351,4 +351,87 @@ def who_writes_points(repo: Repo) -> RuleRun:
 
 who_writes_points.rule_id = "C17.WHO-WRITES-POINTS"
 
-RULES = [purity, position_writers, link_algebra, affine_kinds, mirror_matrix, trig_domain, params_used, owns_geometry, angle_dimension, closest_search, float_stores, who_writes_points]
+def symmetry_exact(repo: Repo) -> RuleRun:
+    """'the follower of a symmetry link is the mirror image of the leader' - on whichever side of the plane the leader is: SymmetryLink
+    (constructor, then a new leader position and transform()) is run by the abstract evaluator over exact rational vectors; the plane's
+    normal is a Pythagorean quadruple so every norm on the way is rational. The follower must equal the exact reflection."""
+    from fractions import Fraction
+
+    from .. import exact
+    from ..peval import NotEvaluable, Obj, Raised
+
+    r = RuleRun(PROP, "C17.SYMMETRY-EXACT", floor=8, what="SymmetryLink places the follower at the exact mirror image of the leader, leader on either side of (and on) the plane, non-unit normals, shifted origins (exact rational evaluation)")
+    r.exhaustive = True
+    cls = repo.cls("optimize.links.SymmetryLink")
+    init = repo.find_method(cls, "__init__")
+    upd = repo.find_method(cls, "update")
+    r.require(init is not None and upd is not None, "SymmetryLink.__init__ / update vanished")
+    n = 0
+    for normal in ((2, 3, 6), (1, 4, 8), (-4, 4, 7), (0, 3, 4), (0, 0, 5)):
+        nn = sum(x * x for x in normal)
+        for origin in ((0, 0, 0), (Fraction(1, 3), -2, Fraction(5, 7))):
+            for leader in ((3, -1, 2), (-5, Fraction(1, 2), -4), (Fraction(1, 3), -2, Fraction(5, 7))):
+                L, O, N = exact.vec(*leader), exact.vec(*origin), exact.vec(*normal)
+                d = sum((Fraction(a) - Fraction(b)) * c_ for a, b, c_ in zip(leader, origin, normal))
+                want = exact.vec(*[Fraction(leader[i]) - 2 * d * normal[i] / nn for i in range(3)])
+                link = Obj("link", cls=cls)
+                ev = exact.evaluator(repo, init.module)
+                label = f"normal {normal}, origin {tuple(str(x) for x in origin)}, leader {tuple(str(x) for x in leader)} ({'on the positive side' if d > 0 else 'on the negative side' if d < 0 else 'on the plane'})"
+                n += 1
+                try:
+                    ev.call_funcinfo(init, [link, exact.vec(0, 0, 0), exact.vec(9, 9, 9), N, O])
+                    link.set("leader", L)
+                    ev.call_funcinfo(upd, [link])
+                    got = link.get("follower")
+                except Raised as err:
+                    r.bad(init, f"SymmetryLink raises {err.exc_name} for {label}", init.node, key=f"sym:{normal}:{origin}:{leader}")
+                    continue
+                except NotEvaluable as err:
+                    raise AnalysisError(f"SymmetryLink not evaluable over exact rational vectors ({label}): {err}") from err
+                ok = exact.same(got, want)
+                off = "" if ok or not isinstance(got, exact.Vec) else f": the follower is {exact.distance(got, want):.3f} away from the mirror image"
+                r.check(ok, repo.find_method(cls, "_get_follower") or init, f"{label}: exact mirror image", f"SymmetryLink, {label}{off} - the follower is not the reflection of the leader in the plane", init.node, key=f"sym:{normal}:{origin}:{leader}")
+    r.require(n >= 8, f"only {n} configurations examined")
+    return r
+
+
+symmetry_exact.rule_id = "C17.SYMMETRY-EXACT"
+
+def angle_between_exact(repo: Repo) -> RuleRun:
+    """'a rotation link turns the follower by the angle the leader turned' - for turns of any size: functions.angle_between is run over
+    exact rational vectors with rational norms (3-4-5 and 5-12-13 triangles) from 0 to pi; its result (the inverse trigonometric
+    function is taken in floating point at the very end) must be the angle whose cosine AND sine are those of the pair."""
+    import math
+
+    from .. import exact
+    from ..peval import NotEvaluable, Raised
+
+    r = RuleRun(PROP, "C17.ANGLE-BETWEEN", floor=8, what="functions.angle_between returns the angle in [0, pi] between two vectors, acute, right, obtuse and opposite pairs alike (exact rational evaluation up to the final inverse trigonometric call)")
+    fn = repo.func("util.functions.angle_between")
+    pairs = [
+        ("parallel", (3, 4, 0), (6, 8, 0)), ("acute 36.9 deg", (1, 0, 0), (4, 3, 0)), ("acute 53.1 deg", (2, 0, 0), (3, 4, 0)), ("right", (0, 0, 7), (3, 4, 0)),
+        ("obtuse 126.9 deg", (1, 0, 0), (-3, 4, 0)), ("obtuse 143.1 deg", (0, 5, 0), (3, -4, 0)), ("obtuse 112.6 deg", (0, 0, 2), (12, 0, -5)), ("opposite", (3, 4, 0), (-3, -4, 0)),
+        ("obtuse, in general position", (2, 3, 6), (-6, 2, -3)),
+    ]
+    for label, a, b in pairs:
+        na, nb = math.sqrt(sum(x * x for x in a)), math.sqrt(sum(x * x for x in b))
+        dot = sum(x * y for x, y in zip(a, b))
+        cr = (a[1] * b[2] - a[2] * b[1], a[2] * b[0] - a[0] * b[2], a[0] * b[1] - a[1] * b[0])
+        want = math.atan2(math.sqrt(sum(x * x for x in cr)), dot)
+        try:
+            got = exact.evaluator(repo, fn.module).call_funcinfo(fn, [exact.vec(*a), exact.vec(*b)])
+        except Raised as err:
+            r.bad(fn, f"angle_between raises {err.exc_name} for a {label} pair {a}, {b}", fn.node, key=f"angle:{label}")
+            continue
+        except NotEvaluable as err:
+            raise AnalysisError(f"angle_between not evaluable over exact rational vectors ({label}): {err}") from err
+        if isinstance(got, exact.Rat):
+            got = float(exact.value(got))
+        ok = isinstance(got, (int, float)) and abs(got - want) < 1e-9
+        r.check(ok, fn, f"{label}: {math.degrees(want):.1f} deg", f"angle_between{a, b} ({label}) gives {math.degrees(got) if isinstance(got, (int, float)) else got!r:.6} deg; the angle between the two vectors is {math.degrees(want):.1f} deg - a rotation link (and every other user) turns by the wrong amount", fn.node, key=f"angle:{label}")
+    return r
+
+
+angle_between_exact.rule_id = "C17.ANGLE-BETWEEN"
+
+RULES = [purity, position_writers, link_algebra, affine_kinds, mirror_matrix, trig_domain, params_used, owns_geometry, angle_dimension, closest_search, float_stores, who_writes_points, symmetry_exact, angle_between_exact]
